@@ -124,8 +124,18 @@ Definition pf_plain : profile :=
   {| pf_td_name := None; pf_td_kids := []; pf_chol_ignore := false; pf_eig := EigBase; pf_cm_root := None;
      pf_precond := false; pf_sum := false; pf_iqld_to := false |}.
 
+(* three facts about the pinned source that the model depends on and that the harness re-reads from
+   linear_operator/operators/_linear_operator.py on every run (gen/SourceFlags.v): they are the defect sites *)
+Record srcflags := {
+  fl_lr_wraps : bool;         (* add_low_rank: `if return_triangular: updated_root = TriangularLinearOperator(updated_root)` *)
+  fl_eigh_none : bool;        (* eigh: the pop branch returns (evals, None) *)
+  fl_eigvalsh_tuple : bool    (* eigvalsh: the pop branch returns a tuple instead of evals *)
+}.
+Definition fl_pinned : srcflags := {| fl_lr_wraps := true; fl_eigh_none := true; fl_eigvalsh_tuple := true |}.
+
 Section Model.
 Variable K : kern.
+Variable fl : srcflags.
 Notation Mat := (Mat K).
 Notation Val := (Val K).
 
@@ -364,11 +374,11 @@ Definition root_inv_decomposition (st : settings) (fuel : nat) (i : nat) (args :
 (* eigh / eigvalsh: try: evals, evecs = pop_from_cache(self, "symeig", eigenvectors=True); return evals, None *)
 Definition eigh (fuel : nat) (i : nat) : H Val :=
   catch (e <- py_pop_from_cache (L := obj_lens i) (NStr "symeig") [] [("eigenvectors", PBool true)] ;;
-         ret (k_eig_drop K e)) [CachingError]
+         ret (if fl_eigh_none fl then k_eig_drop K e else e)) [CachingError]
         (symeig fuel i true).
 Definition eigvalsh (fuel : nat) (i : nat) : H Val :=
   catch (e <- py_pop_from_cache (L := obj_lens i) (NStr "symeig") [] [("eigenvectors", PBool true)] ;;
-         ret (k_eig_drop K e)) [CachingError]
+         ret (if fl_eigvalsh_tuple fl then k_eig_drop K e else k_evals K e)) [CachingError]
         (e <- symeig fuel i false ;; ret (k_evals K e)).
 
 (* _preconditioner: base class (None, None, None); AddedDiag builds _q_cache & co once and reuses them *)
@@ -536,7 +546,7 @@ Definition deriv_finish (st : settings) (d : deriv) (x : nat * option (Val * Val
   let (j, roots) := x in
   match roots, d with
   | Some (L, Mi), DAddLowRank B _ _ _ =>
-      let '(nr, ni) := k_lr_update K (v_root K L) (v_root K Mi) B (v_is_tri K (v_root K L)) in
+      let '(nr, ni) := k_lr_update K (v_root K L) (v_root K Mi) B (fl_lr_wraps fl && v_is_tri K (v_root K L)) in
       add_to_cache_m j "root_decomposition" nr [] [] ;;;
       add_to_cache_m j "root_inv_decomposition" ni [] [] ;;;
       ret j
